@@ -389,6 +389,55 @@ C10Clauses ==
           /\ Near(PA.Rkhi[x + 1][y + 1], PB.Rkhi[x + 1][f + 2], 10) /\ Near(PA.Zkhi[x + 1][y + 1], PB.Zkhi[x + 1][f + 2], 10), "corners")
 
 --------------------------------------------------------------------------
+(* C11 on grids: targets on the wall, cells inside, guard cells outside, penalty_mask cases, wall output *)
+BWall == 500          \* 5e-6 m (quantum 1e-8): the wall point comes from the chord between two FineContour points (Nfine >= 50) and is then moved onto its surface
+WallLower(r) == ~HasLower(conn, r)
+WallUpper(r) == ~HasUpper(conn, r)
+TargetLoY(r) == RY0(r) + cfg.G                    \* the cell whose lower y-face is the target
+TargetHiY(r) == RY0(r) + RNy(r) - 1 - cfg.G       \* the cell whose upper y-face is the target
+SepFacesOf(r) == {XFace(X) : X \in {X2 \in XPts : r \in StartsAt(X2) \cup EndsAt(X2)}}
+Md11(a, b) == a - b * (a \div b)
+Shoe3(w) == LET n == Len(w) IN
+  LET S[i \in 0..(n - 1)] == IF i = 0 THEN 0 ELSE S[i - 1] + w[i][1] * w[i + 1][2] - w[i + 1][1] * w[i][2] IN S[n - 1]
+C11Clauses ==
+  IF Obs.haswall = 0 THEN TRUE ELSE
+  LET D == Obs.dw  I == Obs.inw  orth == Obs.orth = 1 IN
+  /\ ClauseAt("TargetOnWall", \A r \in 1..NR(T) :
+        /\ WallLower(r) => \A x \in XS : (orth \/ (D.lo[x + 1][TargetLoY(r) + 1] <= BWall /\ D.klo[x + 1][TargetLoY(r) + 1] <= BWall))
+                                        /\ (x \in SepFacesOf(r) => D.klo[x + 1][TargetLoY(r) + 1] <= BWall)
+        /\ WallUpper(r) => \A x \in XS : (orth \/ (D.hi[x + 1][TargetHiY(r) + 1] <= BWall /\ D.khi[x + 1][TargetHiY(r) + 1] <= BWall))
+                                        /\ (x \in SepFacesOf(r) => D.khi[x + 1][TargetHiY(r) + 1] <= BWall), "faces")
+  /\ ClauseAt("TargetOnSurface", \A r \in 1..NR(T) : \A x \in XS :
+        /\ WallLower(r) => Near(Obs.psi_t.lo[x + 1][TargetLoY(r) + 1], Obs.psivals[MeshId(x, TargetLoY(r)) + 1][PsiK("ylow", x)], BPsi)
+        /\ WallUpper(r) => Near(Obs.psi_t.hi[x + 1][TargetHiY(r) + 1], Obs.psivals[MeshId(x, TargetHiY(r)) + 1][PsiK("ylow", x)], BPsi), "faces")
+  \* non-orthogonal: every cell between the targets has its centre inside the wall, every boundary guard cell outside;
+  \* orthogonal: the same along the separatrix (corner points of the separatrix x-face), where the target is on the wall
+  /\ ClauseAt("InsideBetweenTargets", \A x \in XS : \A y \in YS : IsGuard(y) \/
+        IF ~orth THEN I.c[x + 1][y + 1] = 1
+        ELSE x \in SepFacesOf(RegY(y)) => /\ (I.klo[x + 1][y + 1] = 1 \/ D.klo[x + 1][y + 1] <= BWall)
+                                          /\ (I.khi[x + 1][y + 1] = 1 \/ D.khi[x + 1][y + 1] <= BWall), "cells")
+  /\ ClauseAt("GuardsOutside", \A x \in XS : \A y \in YS : ~IsGuard(y) \/
+        IF ~orth THEN I.c[x + 1][y + 1] = 0
+        ELSE x \in SepFacesOf(RegY(y)) => /\ (I.klo[x + 1][y + 1] = 0 \/ D.klo[x + 1][y + 1] <= BWall)
+                                          /\ (I.khi[x + 1][y + 1] = 0 \/ D.khi[x + 1][y + 1] <= BWall), "guards")
+  \* penalty_mask: 0 when both y-faces are inside, 1 when both are outside, otherwise the outside fraction of the cell's poloidal extent
+  /\ ClauseAt("PenaltyCases", \A x \in XS : \A y \in YS :
+        LET a == I.lo[x + 1][y + 1]  b == I.hi[x + 1][y + 1]
+            strict == D.lo[x + 1][y + 1] > BWall /\ D.hi[x + 1][y + 1] > BWall
+            pm == Obs.pm[x + 1][y + 1]
+        IN IF strict /\ a = 1 /\ b = 1 THEN pm = 0
+           ELSE IF strict /\ a = 0 /\ b = 0 THEN pm = 1000000
+           ELSE Near(pm, Obs.frac[x + 1][y + 1], 1000), "cells")
+  \* closed_wall_R/Z: closed, anticlockwise, the input polygon's vertex cycle (rotated, and reversed if the input was clockwise)
+  /\ ClauseAt("WallIsInput",
+        LET wo == Obs.wall_out7  wi == Obs.wall_in7  n == Len(wi) IN
+        /\ Len(wo) = n + 1 /\ wo[1] = wo[n + 1]
+        /\ Shoe3(Obs.wall_out3) > 0
+        /\ \E sh \in 0..(n - 1) : \E dir \in {1, -1} : \A k \in 1..n :
+              LET j == Md11(sh + dir * (k - 1) + 2 * n, n) + 1 IN
+              Abs(wo[k][1] - wi[j][1]) <= 1 /\ Abs(wo[k][2] - wi[j][2]) <= 1, "wall")
+
+--------------------------------------------------------------------------
 Observe ==
   /\ stage = "file"
   /\ CASE Obs.prop = "C01" -> C01Clauses
@@ -400,6 +449,7 @@ Observe ==
        [] Obs.prop = "C16" -> C16Clauses
        [] Obs.prop = "C05" -> C05Clauses
        [] Obs.prop = "C10" -> C10Clauses
+       [] Obs.prop = "C11" -> C11Clauses
        [] Obs.prop = "C06" -> C06Clauses
        [] OTHER -> TRUE
   /\ stage' = "observed"
